@@ -12,13 +12,17 @@ from pipeline import Pipeline, Gen
 import verifkit as vk
 
 
-def S(act, who=0, as_=None, c=0, amt=0, m=0, ch=0, k=0, q=0, via="", d=None):
+def S(act, who=0, as_=None, c=0, amt=0, m=0, ch=0, k=0, q=0, via="", d=None, sc=None):
+    """sc (SetSale only): the complete sale-contract list the proposal installs, contract id per chain 1..3 (0 = not listed)"""
     if d is None:
         d = 1 if act in ("AddLicense", "Sale", "Gift") else 0       # 1 = bond denom, 2 = uusdc
-    return {"act": act, "args": {"who": who, "as": who if as_ is None else as_, "c": c, "amt": amt, "m": m, "ch": ch, "k": k, "q": q, "via": via, "d": d}}
+    if act == "SetSale" and sc is None:
+        raise ValueError("SetSale needs the complete list")
+    return {"act": act, "args": {"who": who, "as": who if as_ is None else as_, "c": c, "amt": amt, "m": m, "ch": ch, "k": k, "q": q, "via": via, "d": d,
+                                 "sc": list(sc) if sc is not None else []}}
 
 
-CFG = [S("SetFunders", 1, as_=2), S("SetFeegranter"), S("SetSale", ch=1, k=1)]
+CFG = [S("SetFunders", 1, as_=2), S("SetFeegranter"), S("SetSale", sc=(1, 0, 0))]
 ACTS = ("AddLicense", "Register", "Auth", "Sale", "SetFunders", "SetFeegranter", "SetSale", "Gift", "Advance")
 
 
@@ -27,10 +31,13 @@ class C18(Pipeline):
     mc = [("LightNode_mc", "LightNode_mc", ("quick", "thorough")),
           ("LightNode_mc", "LightNode_mc_chains", ("thorough",)),
           ("LightNode_mc", "LightNode_mc_deep", ("thorough",))]
-    gens = [Gen("LightNodeGen", "LightNodeGen_cover", "bfs", tiers=("quick",), timeout=300, cap=500),
-            Gen("LightNodeGen", "LightNodeGen_sale_cover", "bfs", tiers=("quick",), timeout=300, cap=500),
-            Gen("LightNodeGen", "LightNodeGen_vest_cover", "bfs", tiers=("quick",), timeout=300, cap=300),
+    gens = [Gen("LightNodeGen", "LightNodeGen_cover", "bfs", tiers=("quick",), timeout=300, cap=450),
+            Gen("LightNodeGen", "LightNodeGen_sale_cover", "bfs", tiers=("quick",), timeout=300, cap=350),
+            Gen("LightNodeGen", "LightNodeGen_vest_cover", "bfs", tiers=("quick",), timeout=300, cap=250),
             Gen("LightNodeGen", "LightNodeGen_denom_cover", "bfs", tiers=("quick", "thorough"), timeout=300),
+            Gen("LightNodeGen", "LightNodeGen_same_cover", "bfs", tiers=("quick", "thorough"), timeout=300),
+            Gen("LightNodeGen", "LightNodeGen_cfg_cover", "bfs", tiers=("quick",), timeout=300, cap=330),
+            Gen("LightNodeGen", "LightNodeGen_cfg_cover", "bfs", tiers=("thorough",), timeout=300),
             Gen("LightNodeGen", "LightNodeGen_sim", "simulate", num=100, depth=16, tiers=("quick",), timeout=300),
             Gen("LightNodeGen", "LightNodeGen_cover", "bfs", tiers=("thorough",), timeout=600),
             Gen("LightNodeGen", "LightNodeGen_sale_cover", "bfs", tiers=("thorough",), timeout=600),
@@ -46,6 +53,8 @@ class C18(Pipeline):
         "who may create a licence: MsgAddLightNodeClientLicense has no authority check in the msg server - any account may send it and pays the amount itself; the message accepts a coin of ANY denomination: two are exercised, the bond denom ugrain (users 1..3 hold 3, 0.5 and 2 GRAIN) and a second genesis-funded denom uusdc (users 1, 2 hold 1 and 2 units); escrow, licence sums, balances, original vesting and locked coins are modelled, observed and monitored per denomination; sales and gifts are in the bond denom",
         "activation / authentication: really signed MsgRegisterLightNodeClient / MsgAuthLightNodeClient by the client key (fresh keys 11, 12 have no account before a licence creates it) and by other accounts naming the client as Metadata.Creator; no fee grants FROM the tracked clients exist (x/paloma's VerifyAuthorisedSignatureDecorator lets a grantee act for the granter; that delegation is property C03's subject)",
         "sale: every one of the 3 validators signs a MsgLightNodeSaleClaim (skyway_nonce = its last nonce + 1, compass id of the activated chain) in one block; the skyway end blocker of that block tallies and runs handleLightNodeSale in the attestation's cache context; quorum rules are property C02's subject",
+        "the configuration the monitors judge sales against is the one the MODEL holds after the last proposal of each kind (funders list, fee granter, complete per-chain sale-contract list over 3 chains; later proposals replace the list by arbitrary subsets and changed addresses); what the real stores hold after every block is read back and compared with it as conformance",
+        "vesting months are 0, 1 and 24; 0 is valid input: on the pinned tree the account becomes a continuous vesting account with start = end (everything locked in the activation block, free afterwards), which is what the model says",
         "configuration (funders, fee granter, sale contracts): the governance proposal HANDLERS registered in the app's gov router (x/paloma NewPalomaProposalHandler, x/skyway NewSkywayProposalHandler) are called with the proposal content on the set-up context and committed by the next block; proposal submission, deposit and voting are not replayed",
         "chain set-up through keepers (harness/env/e2_evm.go): eth-main and bnb-main added and activated with a compass, validators with external accounts, relayer fees, keep-alive, metrix records and a current published snapshot",
         "outside gift: the module account is a blocked receiver for bank MsgSend (observed: rejected); a gift is therefore a keeper-level bank transfer on the set-up context, what another module could do",
@@ -55,6 +64,19 @@ class C18(Pipeline):
 
     def extra_histories(self, tier):
         return [
+            # a licence with ZERO vesting months (valid input) next to another pending licence in the same denom: activated once, every
+            # further attempt (directly, after time has passed, after the other one activated) is refused and moves nothing
+            [S("AddLicense", 1, c=11, amt=1, m=0), S("AddLicense", 3, c=12, amt=2, m=1), S("Register", 11), S("Register", 11), S("Auth", 11), S("Advance", c=11, q=4),
+             S("Register", 11), S("Register", 12), S("Register", 11), S("Register", 12), S("Advance", c=12, q=2)],
+            [S("AddLicense", 1, c=11, amt=2, m=24), S("AddLicense", 3, c=12, amt=1, m=0), S("Register", 12), S("Register", 12), S("Register", 12), S("Register", 11),
+             S("Register", 11), S("AddLicense", 1, c=12, amt=1, m=0), S("Advance", c=11, q=2)],
+            CFG + [S("AddLicense", 3, c=11, amt=1, m=0, d=1), S("Sale", c=12, amt=2, ch=1, k=1), S("Register", 11), S("Register", 11), S("Register", 12), S("Register", 12), S("Register", 11)],
+            # the sale-contract list is REPLACED by later proposals: sales from current, retired and never configured contracts of each chain
+            [S("SetFunders", 1), S("SetFeegranter"), S("SetSale", sc=(1, 1, 1)), S("Sale", c=11, amt=1, ch=3, k=2), S("SetSale", sc=(1, 0, 0)), S("Sale", c=11, amt=1, ch=3, k=1),
+             S("Sale", c=11, amt=1, ch=2, k=1), S("SetSale", sc=(2, 0, 1)), S("Sale", c=11, amt=1, ch=1, k=1), S("Sale", c=11, amt=1, ch=2, k=1), S("Sale", c=11, amt=1, ch=3, k=1),
+             S("SetSale", sc=(0, 0, 0)), S("Sale", c=12, amt=1, ch=3, k=1), S("Sale", c=12, amt=1, ch=1, k=2), S("SetSale", sc=(0, 2, 0)), S("Sale", c=12, amt=1, ch=2, k=2)],
+            [S("SetFunders", 1), S("SetFeegranter"), S("SetSale", sc=(1, 2, 0)), S("SetSale", sc=(0, 2, 0)), S("Sale", c=11, amt=1, ch=1, k=1), S("SetSale", sc=(0, 1, 1)),
+             S("Sale", c=11, amt=1, ch=2, k=2), S("SetSale", sc=(0, 0, 1)), S("Sale", c=11, amt=1, ch=2, k=1), S("Sale", c=11, amt=1, ch=3, k=1)],
             # two pending licences in different denominations, one activates (then the other): each is paid in its own coin
             [S("AddLicense", 1, c=11, amt=1, m=1), S("AddLicense", 2, c=12, amt=1, m=1, d=2), S("Register", 12), S("Advance", c=12, q=2), S("Register", 11),
              S("Advance", c=11, q=2), S("Advance", c=12, q=4), S("Advance", c=11, q=5)],
@@ -70,13 +92,13 @@ class C18(Pipeline):
              S("Advance", c=11, q=1), S("Advance", c=11, q=2), S("Advance", c=11, q=4), S("Gift", 3, amt=1, via="tx"), S("Gift", 3, amt=1, via="keeper"),
              S("AddLicense", 2, as_=1, c=12, amt=1, m=24), S("AddLicense", 3, c=12, amt=1, m=24), S("Register", 12), S("Advance", c=12, q=2), S("Advance", c=12, q=5)],
             # sale: configuration completed step by step, wrong contract / chain, client with account, poor funder, amount 0, resale, activation
-            [S("Sale", c=11, amt=1, ch=1, k=1), S("SetSale", ch=1, k=1), S("Sale", c=11, amt=1, ch=1, k=1), S("SetFeegranter"), S("Sale", c=11, amt=1, ch=1, k=1),
+            [S("Sale", c=11, amt=1, ch=1, k=1), S("SetSale", sc=(1, 0, 0)), S("Sale", c=11, amt=1, ch=1, k=1), S("SetFeegranter"), S("Sale", c=11, amt=1, ch=1, k=1),
              S("SetFunders", 2), S("Sale", c=11, amt=1, ch=1, k=1), S("SetFunders", 2, as_=1), S("Sale", c=11, amt=0, ch=1, k=1), S("Sale", c=11, amt=1, ch=1, k=2),
              S("Sale", c=11, amt=1, ch=2, k=1), S("Sale", c=3, amt=1, ch=1, k=1), S("Sale", c=11, amt=2, ch=1, k=1), S("Sale", c=11, amt=1, ch=1, k=1), S("Register", 11),
              S("Advance", c=11, q=1), S("Advance", c=11, q=2), S("Advance", c=11, q=5), S("Sale", c=12, amt=1, ch=1, k=1), S("Sale", c=11, amt=1, ch=1, k=1)],
             # direct and sold licences interleaved with a gift: escrow = licences + gift throughout
             CFG + [S("AddLicense", 3, c=11, amt=2, m=24), S("Sale", c=12, amt=2, ch=1, k=1), S("Gift", 1, amt=1, via="keeper"), S("Register", 12), S("Sale", c=11, amt=1, ch=1, k=1),
-                   S("Register", 11), S("Auth", 12), S("Advance", c=12, q=2), S("Advance", c=11, q=2), S("SetSale", ch=2, k=1), S("Sale", c=11, amt=1, ch=1, k=1), S("SetSale", ch=1, k=0)],
+                   S("Register", 11), S("Auth", 12), S("Advance", c=12, q=2), S("Advance", c=11, q=2), S("SetSale", sc=(0, 1, 0)), S("Sale", c=11, amt=1, ch=1, k=1), S("SetSale", sc=(0, 0, 0))],
         ]
 
     def nontrivial(self, evs):
@@ -124,6 +146,35 @@ class C18(Pipeline):
                     if len(dens) >= 2:
                         mixed.add([c["oden"] for c in e["obs"]["cl"] if c["c"] == e["args"]["as"]][0])
         self._mixed = sorted(mixed)
+        # zero-month licence: activated with another licence of the same denom pending, then attempted again
+        zero = 0
+        # sales reported from a contract that an earlier proposal listed for that chain and the last one does not
+        retired = current = never = 0
+        for evs in byh.values():
+            listed, cur = set(), [0, 0, 0]
+            for p, e in zip(evs, evs[1:]):
+                a = e["args"]
+                if e["act"] == "SetSale" and e.get("res") == "ok":
+                    cur = list(a["sc"])
+                    listed |= {(i + 1, k) for i, k in enumerate(cur) if k}
+                if e["act"] == "Sale" and e.get("res") == "ok":
+                    key = (a["ch"], a["k"])
+                    if cur[a["ch"] - 1] == a["k"]:
+                        current += 1
+                    elif key in listed:
+                        retired += 1
+                    else:
+                        never += 1
+                if e["act"] == "Register" and e.get("res") != "ok" and a["who"] == a["as"]:
+                    me = [c for c in p["obs"]["cl"] if c["c"] == a["as"]]
+                    if me and me[0]["acct"] == 2 and me[0]["endm"] == 0 and any(c["lic"] == 1 and c["lden"] == me[0]["oden"] for c in p["obs"]["cl"]):
+                        zero += 1
+        self._cfgsales = {"current": current, "retired": retired, "never_configured": never}
+        self._zero = zero
+        if min(current, retired, never) == 0:
+            return "sales do not cover current / retired / never configured contracts: %s" % self._cfgsales
+        if zero == 0:
+            return "no re-activation attempt of a zero-month licence with another licence of its denomination pending"
         if not {1, 2} <= mixed:
             return "no activation with pending licences in two denominations for both denominations: %s" % sorted(mixed)
         fr2 = {(c["num"], c["den"]) for e in events for c in e["obs"].get("cl", []) if c["acct"] == 2 and c["oden"] == 2}
@@ -145,7 +196,9 @@ class C18(Pipeline):
                 k = "denom%d" % e["args"]["d"]
                 lic_d[k] = lic_d.get(k, 0) + 1
         return {"sales": getattr(self, "_sales", {}), "vesting_observations_at_fraction": fr, "direct_licences_by_denom": lic_d,
-                "activations_with_two_denoms_pending_of_denom": getattr(self, "_mixed", [])}
+                "activations_with_two_denoms_pending_of_denom": getattr(self, "_mixed", []),
+                "attested_sales_by_contract_status": getattr(self, "_cfgsales", {}),
+                "reactivation_attempts_zero_month_with_same_denom_pending": getattr(self, "_zero", 0)}
 
     validate_chunks = 4
 
@@ -253,16 +306,16 @@ class C18(Pipeline):
             jobs["foreign_activation_rejected"] = (evs, has({"C18.ActivateOnceBySelf"}))
         # 4. an attested sale without authorised contract recorded with the licence of a configured one
         h4, k4 = find(lambda e, pre: e["act"] == "Sale" and e["res"] == "ok" and len(pre) >= 1 and e["obs"]["nlic"] > pre[-1]["obs"]["nlic"]
-                      and e["obs"]["sc"] != [0, 0])
+                      and any(x["act"] == "SetSale" for x in pre))
         if h4 is None:
             r = missing("no effective sale recorded")
             if r:
                 return r
         else:
+            # (the configuration the monitors use is the list of the LAST proposal: that proposal is rewritten to an empty list)
             evs = copy.deepcopy(byh[h4])
-            for x in evs[:k4 + 1]:
-                x["obs"]["sc"] = [0, 0]
-                x["obs"]["nsc"] = 0
+            last = max(i for i, x in enumerate(evs[:k4]) if x["act"] == "SetSale")
+            evs[last]["args"]["sc"] = [0, 0, 0]
             jobs["unconfigured_sale_rejected"] = (evs, has({"C18.SaleOnlyIfConfigured"}))
         # 5. locked coins at the middle of the window off by 3 coins
         h5, k5 = find(lambda e, pre: any(r["acct"] == 2 and (r["num"], r["den"]) == (1, 2) for r in e["obs"]["cl"]))
